@@ -1237,6 +1237,10 @@ class Store:
         self._apply_subschema_path(path)
         target.apply_defaults()
         target.set_value(added_state)
+        # nodes the state created below a glob store of the sub-schema
+        # have only the variables it spells out: the others get their
+        # declared defaults (as in Store.generate)
+        target.apply_defaults()
 
     def move(self, move, process_store):
         '''
@@ -1369,6 +1373,7 @@ class Store:
         # exist only now: give them their initial state too (as
         # Store.divide does).
         target.set_value(insertion['initial_state'])
+        target.apply_defaults()
 
         return process_updates, step_updates, flow_updates, topology_updates
 
@@ -1457,6 +1462,7 @@ class Store:
             target = self.get_path(daughter_path)
             target.apply_defaults()
             target.set_value(merged_initial_state)
+            target.apply_defaults()
 
         self._delete_path(mother_path)
         deletions.append(tuple(here + mother_path))
